@@ -17,7 +17,10 @@
 (*   cexit   version status               command reaped (EOF on its pipe + Wait + both helper goroutines done)        *)
 (*   disp    version nlines head          render loop put a preview result into the window; head = first line split    *)
 (*   quiet   cur q sel visible tag pane procs overlaps log      driver observed quiescence (GET /, /proc, LOG, screen) *)
-(*   exit    how survivors                fzf has exited; pgids of preview processes still alive                       *)
+(*   exit    how status survivors overlaps    fzf has exited (abort / accept / SIGTERM); process groups of preview     *)
+(*                                        commands still alive (neither zombie nor with SIGKILL pending)               *)
+(* Deviations of FzfPreview (findings F6, F18) are accepted only as named steps; a session that reaches its end only   *)
+(* with their help is reported with the finding's signature, any other discrepancy is a plain rejection.               *)
 (*                                                                                                                    *)
 (* Field codes of a template (what the command prints, one field per placeholder): n {n}, s {}, q {q}, pn {+n} joined  *)
 (* by ",", pf the lines of {+f} each followed by ",", f the content of {f}.                                            *)
